@@ -107,6 +107,9 @@ var curatedGrammars = []string{
 	"s = a B | LP a RP | LB a RB C; a = X | X X | @e",
 	// @error at start, middle, end, inside sugar
 	"s = @e | A s B", "s = A @e B | A C", "s = item* ; item = A SEMI | @e SEMI", "s = L(item,COMMA)?; item = A | @e", "s = A @e? B",
+	// a production that is @error alone inside a repetition: a recovered item can be followed at once by
+	// another error, also a lexer ERROR token met while skipping (queued lookahead)
+	"s = item*; item = A SEMI | @e", "s = item+ END; item = A | @e", "s = LP item* RP; item = A SEMI | LP item* RP | @e",
 	// productions whose span can be empty as a whole; nested empty reductions at both ends (bounds)
 	"s = item*; item = mods X tail SEMI; mods = mod? flag?; mod = M; flag = F; tail = bangs; bangs = BANG*",
 	"s = e1 A e2 | e1 e2; e1 = o1 o2; o1 = @empty; o2 = B?; e2 = C*",
